@@ -123,9 +123,19 @@ func runC05(c *Ctx) {
 				if isCallNamed(rv.V, "coalesce.IsClosedQueue") {
 					return "CLOSED"
 				}
+				// the error Next returned: what IsClosedQueue recognises is a non-nil error
+				if b, ok := rv.V.(*ssa.BinOp); ok && (b.Op == token.NEQ || b.Op == token.EQL) && isNilConst(b.Y) {
+					x := e.Resolve(st, RV{rv.F, b.X})
+					if ex, ok := x.V.(*ssa.Extract); ok && ex.Index == 2 && isCallNamed(ex.Tuple, "(*coalesce.Queue).Next") {
+						if b.Op == token.NEQ {
+							return "ERRNN"
+						}
+						return "!ERRNN"
+					}
+				}
 				return ""
 			},
-			Bool: map[string]bool{"CLOSED": true},
+			Bool: map[string]bool{"CLOSED": true, "ERRNN": true},
 		}
 		e := &PPA{Cond: at.Cond, MaxVisits: 2, Watch: func(ev *Ev) bool {
 			return ev.Label == "call:(*coalesce.Queue).Next" || isSend(ev) || strings.HasPrefix(ev.Label, "send:") || ev.Label == "call:"+fnName(P.Method("subscribe", "Server", "sendSubscribeResponse"))
@@ -294,17 +304,10 @@ func runC05(c *Ctx) {
 	{
 		cacheQuery := P.Method("cache", "Cache", "Query")
 		found := 0
-		for _, ci := range callsIn(procSub) {
-			if staticCallee(ci.Common()) != cacheQuery {
-				continue
-			}
-			for _, a := range ci.Common().Args {
-				mc, ok := unwrap(a).(*ssa.MakeClosure)
-				if !ok {
-					continue
-				}
+		for _, vf := range walkVisitors(P, procSub, cacheQuery) {
+			{
 				found++
-				vf := mc.Fn.(*ssa.Function)
+				leafP := leafParam(vf)
 				c.Analysed(fnName(vf))
 				e := &PPA{
 					Cond: func(e *PPA, st *State, rv RV) (bool, bool) {
@@ -325,7 +328,7 @@ func runC05(c *Ctx) {
 					if len(p.Rets) == 1 {
 						rc = retClass(p.Rets[0])
 					}
-					okArg := ins == 1 && unwrap(p.Trace[0].Args[1].V) == ssa.Value(vf.Params[1])
+					okArg := ins == 1 && leafP != nil && frameResolve(RV{p.Trace[0].Args[1].F, unwrap(p.Trace[0].Args[1].V)}).V == leafP
 					c.Check(okArg && rc == "nil", "C05.visitor-total", fnName(vf), "every visited leaf is inserted while no error is pending", P.Pos(vf.Pos()), fmt.Sprintf("inserts=%d returns %s", ins, rc))
 				}
 			}
@@ -367,6 +370,16 @@ func completePathTable(c *Ctx, rule string) {
 			}
 			if s, ok := constString(v.Y); ok && s == "" {
 				x := e.Resolve(st, RV{rv.F, v.X})
+				// oPre + oPath != "": one of the two origins is set
+				if cat, ok := x.V.(*ssa.BinOp); ok && cat.Op == token.ADD {
+					l, r2 := e.Resolve(st, RV{x.F, cat.X}).V, e.Resolve(st, RV{x.F, cat.Y}).V
+					if isCallNamed(l, "(*proto/gnmi.Path).GetOrigin") && isCallNamed(r2, "(*proto/gnmi.Path).GetOrigin") {
+						if v.Op == token.EQL {
+							return "!OANY"
+						}
+						return "OANY"
+					}
+				}
 				if call, ok := x.V.(*ssa.Call); ok && calleeName(&call.Call) == "(*proto/gnmi.Path).GetOrigin" {
 					name := ""
 					if call.Call.Args[0] == prefixP {
@@ -393,7 +406,7 @@ func completePathTable(c *Ctx, rule string) {
 		return ""
 	}
 	// the order of what is appended to the result
-	describe := func(p *Path) string {
+	describe := func(p *Path, opre, opath bool, plen int64) string {
 		var parts []string
 		for i := range p.Trace {
 			ev := &p.Trace[i]
@@ -405,7 +418,9 @@ func completePathTable(c *Ctx, rule string) {
 			case isCallNamed(a, fnName(ts)):
 				call := a.(*ssa.Call)
 				if call.Call.Args[0] == prefixP {
-					parts = append(parts, "prefix-index")
+					if plen > 0 { // an empty prefix index contributes nothing
+						parts = append(parts, "prefix-index")
+					}
 				} else if call.Call.Args[0] == pathP {
 					parts = append(parts, "path-index")
 				} else {
@@ -414,6 +429,18 @@ func completePathTable(c *Ctx, rule string) {
 			default:
 				// a one-element literal holding an origin
 				s := "elem(" + Expr(a) + ")"
+				if els := ev.Elems[1]; len(els) == 1 {
+					// the element as resolved on this path (a variable assigned from either origin)
+					if call, ok := els[0].V.(*ssa.Call); ok && calleeName(&call.Call) == "(*proto/gnmi.Path).GetOrigin" {
+						if call.Call.Args[0] == prefixP {
+							s = "prefix-origin"
+						} else {
+							s = "path-origin"
+						}
+						parts = append(parts, s)
+						continue
+					}
+				}
 				if sl, ok := a.(*ssa.Slice); ok {
 					if al, ok := sl.X.(*ssa.Alloc); ok {
 						for _, r := range *al.Referrers() {
@@ -424,6 +451,15 @@ func completePathTable(c *Ctx, rule string) {
 											if call.Call.Args[0] == prefixP {
 												s = "prefix-origin"
 											} else {
+												s = "path-origin"
+											}
+										}
+										// oPre + oPath with exactly one of them set is that one
+										if cat, ok := st.Val.(*ssa.BinOp); ok && cat.Op == token.ADD && isCallNamed(cat.X, "(*proto/gnmi.Path).GetOrigin") && isCallNamed(cat.Y, "(*proto/gnmi.Path).GetOrigin") {
+											switch {
+											case opre && !opath:
+												s = "prefix-origin"
+											case opath && !opre:
 												s = "path-origin"
 											}
 										}
@@ -452,7 +488,7 @@ func completePathTable(c *Ctx, rule string) {
 		{"origin in path, empty prefix", false, true, 0, false, "path-origin + path-index"},
 		{"no origin", false, false, 1, false, "prefix-index + path-index"},
 	} {
-		at := &Atoms{Class: cls, Bool: map[string]bool{"OPRE": sc.opre, "OPATH": sc.opath}, Int: map[string]int64{"PLEN": sc.plen}}
+		at := &Atoms{Class: cls, Bool: map[string]bool{"OPRE": sc.opre, "OPATH": sc.opath, "OANY": sc.opre || sc.opath}, Int: map[string]int64{"PLEN": sc.plen}}
 		e := &PPA{Cond: at.Cond, Watch: func(ev *Ev) bool { return ev.Label == "builtin:append" }}
 		e.Run(cp)
 		c.Paths += len(e.Paths)
@@ -467,7 +503,7 @@ func completePathTable(c *Ctx, rule string) {
 				c.Check(rc != "nil" && retClass(p.Rets[0]) == "nil", rule, fnName(cp), sc.name, P.Pos(cp.Pos()), "returns ("+retClass(p.Rets[0])+", "+rc+")")
 				continue
 			}
-			got := describe(p)
+			got := describe(p, sc.opre, sc.opath, sc.plen)
 			c.Check(rc == "nil" && got == sc.want, rule, fnName(cp), sc.name, P.Pos(cp.Pos()), fmt.Sprintf("result = %s (want %s), error %s", got, sc.want, rc))
 		}
 		c.Check(len(e.Paths) == 1, rule, fnName(cp), sc.name+" (decided)", P.Pos(cp.Pos()), fmt.Sprintf("%d paths (1 = every condition folded)", len(e.Paths)))
